@@ -135,7 +135,7 @@ def mk_rules(n, labels, adj, rng, kinds="req", leaves_obs=True):
     return rules
 
 
-def gen_dynamic(rng, nmax=10, disc_nonleaf=False):
+def gen_dynamic(rng, nmax=10, disc_nonleaf=False, pdisc=0.2):
     """Layered rules plus back edges (static or inside a branch), so that cycles may exist statically or only for some values."""
     n = rng.randint(3, nmax)
     labels = rng.sample(POOL, n)
@@ -146,6 +146,8 @@ def gen_dynamic(rng, nmax=10, disc_nonleaf=False):
         k = labels[i]
         if i < nin:
             rules[k] = dict(sig=0, obs=1)
+            if disc_nonleaf and rng.random() < pdisc:
+                rules[k]['disc'] = [rng.choice(labels)]
             continue
         lower = labels[:i]
         r = dict(sig=rng.randint(0, 3), obs=1 if rng.random() < 0.15 else 0)
@@ -163,7 +165,7 @@ def gen_dynamic(rng, nmax=10, disc_nonleaf=False):
             if rng.random() < 0.4:
                 (a if rng.random() < 0.5 else b).append(rng.choice(labels[i:]))      # a cycle only behind one branch
             r["br"] = (rng.randrange(len(r["req"])), a, b)
-        if rng.random() < 0.2:
+        if rng.random() < pdisc:
             r["disc"] = [rng.choice(labels) if disc_nonleaf else rng.choice(labels[:nin])]
         rules[k] = r
     env = {k: rng.randint(0, 5) for k in labels}
@@ -250,10 +252,38 @@ def valid_cycle_in(lst, root, waits_on):
     return None
 
 
+def py_findcycle(root, g, descending=False):
+    """The search as the C++ writes it, for coverage statistics only (is the result sensitive to the predecessor order?)."""
+    preds = {}
+    for (a, w) in g:
+        preds.setdefault(w, []).append(a)
+    for w in preds:
+        preds[w].sort(key=lambda k: "k%d" % k, reverse=descending)
+    stack, lst, items, steps = [[root, 0]], [], set(), 0
+    while stack and steps < 100000:
+        steps += 1
+        e = stack[-1]
+        ps = preds.get(e[0], [])
+        if e[1] == 0:
+            lst.append(e[0])
+            if e[0] in items:
+                break
+            items.add(e[0])
+        if e[1] != len(ps):
+            e[1] += 1
+            stack.append([ps[e[1] - 1], 0])
+            continue
+        items.discard(e[0])
+        lst.pop()
+        stack.pop()
+    return lst
+
+
 class Judge:
     def __init__(self, chk):
         self.chk = chk
         self.tie = []          # (request line, implementation answer, context)
+        self.verb = "findcycle"
         self.stats = dict(builds=0, failing_builds=0, cyclic_static=0, cyclic_only_dynamic=0, cyclic_only_recorded=0, acyclic=0,
                           root_outside_cycle=0, self_dependency=0, several_cycles=0, dead_end_waitgraphs=0, post_builds=0,
                           may_zone=0, order_sensitive=0)
@@ -307,7 +337,7 @@ class Judge:
             # tie with the pure model: the list must be findCycle of the dumped graph
             if graphs:
                 g = graphs[0]
-                req = "findcycle %d %s" % (root, ",".join("%d>%d" % e for e in g) if g else ".")
+                req = "%s %d %s" % (self.verb, root, ",".join("%d>%d" % e for e in g) if g else ".")
                 self.tie.append((req, "cycle " + " ".join(map(str, lst)) if lst else "none", c, ctx, root, g, lst))
                 preds = {}
                 for (a, w) in g:
@@ -325,6 +355,8 @@ class Judge:
                     self.stats["dead_end_waitgraphs"] += 1
                 if any(len(set(preds.get(x, []))) > 1 for x in seen):
                     self.stats["order_sensitive"] += 1
+                if py_findcycle(root, g) != py_findcycle(root, g, descending=True):
+                    self.stats["several_cycles"] += 1
                 if lst and lst[-1] != root:
                     self.stats["root_outside_cycle"] += 1
                 if len(lst) == 2 and lst[0] == lst[1]:
@@ -487,7 +519,7 @@ def gen_recorded(rng, disc_nonleaf=False):
 
 
 def recorded_lines(c):
-    L = ["db 1"]
+    L = ["db %d" % c.get("db", 1)]
     for k in sorted(c["rules1"]):
         L.append(enginelib.rule_line(k, c["rules1"][k]))
     for k in sorted(c["env1"]):
@@ -497,9 +529,38 @@ def recorded_lines(c):
         L.append(enginelib.rule_line(k, c["rules2"][k]))
     for k in sorted(c["env2"]):
         L.append("set %d %d" % (k, c["env2"][k]))
-    L.append("restart")
+    if c.get("restart", True):
+        L.append("restart")
     L.append("build %d sched=%s" % (c["root2"], c["sched"]))
     return L
+
+
+def gen_scan_cycle(rng):
+    """c0 requests c1 requests ... requests x, and x DISCOVERS c0: acyclic for a fresh build (a discovered dependency is demanded after x
+    completed); in the next build the recorded dependencies form a cycle that only rule scans walk into."""
+    m = rng.randint(1, 4)
+    labels = rng.sample(POOL, m + 3)
+    chain, leaves = labels[:m + 1], labels[m + 1:]
+    rules = {k: dict(sig=0, obs=1) for k in leaves}
+    for i, k in enumerate(chain):
+        r = dict(sig=rng.randint(0, 2), obs=0)
+        if i < m:
+            r["req"] = [chain[i + 1]] + ([rng.choice(leaves)] if rng.random() < 0.6 else [])
+            rng.shuffle(r["req"])
+        else:
+            r["obs"] = rng.choice([0, 1])
+            r["disc"] = [chain[0]]
+            if rng.random() < 0.4:
+                r["req"] = [rng.choice(leaves)]
+        rules[k] = r
+    env1 = {k: rng.randint(0, 5) for k in labels}
+    env2 = dict(env1)
+    if rng.random() < 0.75:
+        k = rng.choice(leaves + [chain[-1]])
+        env2[k] = env1[k] + 1
+    restart = rng.random() < 0.5
+    return dict(family="recorded", scan_cycle=True, rules1=rules, env1=env1, root1=rng.choice([chain[0], chain[-1], rng.choice(chain)]),
+                rules2=rules, env2=env2, root2=rng.choice(chain), discipline=True, restart=restart, db=1 if restart else rng.choice([0, 1]))
 
 
 def corpus_cases():
@@ -560,11 +621,19 @@ def disc_recorded_corpus():
 def run(chk, only=None):
     drv = vlib.build_drivers(["engine_driver"])["engine_driver"]
     model = vlib.model_bin("cycle")
+    # self-test knobs (never set by tools/check): another driver binary (a privately built mutant of the engine) / another model verb
+    if os.environ.get("VERIF_C07_DRIVER"):
+        drv = os.environ["VERIF_C07_DRIVER"]
+        chk.notes["self_test_driver"] = drv
+    verb = os.environ.get("VERIF_C07_MODEL_CMD", "findcycle")
+    if verb != "findcycle":
+        chk.notes["self_test_model_verb"] = verb
     chk.proof_gate()
     rng = chk.rng
     wd = os.path.join(vlib.WORK, "c07-%s" % chk.tier)
     os.makedirs(wd, exist_ok=True)
     J = Judge(chk)
+    J.verb = verb
     scheds = SCHEDS_Q if chk.quick() else ["sync", "defer:1", "defer:7", "mixed:2", "mixed:5", "threads:3"]
 
     def sched(i=None):
@@ -628,9 +697,13 @@ def run(chk, only=None):
         for c in disc_recorded_corpus():
             for s in scheds[:3]:
                 recorded.append(dict(c, sched=s))
+        for i in range(chk.n(120, 3000)):
+            labels, rules, env = gen_dynamic(rng, nmax=7, disc_nonleaf=True, pdisc=0.5)
+            fresh.append(dict(family="disc", rules=rules, env=env, root=labels[-1] if rng.random() < 0.5 else rng.choice(labels), sched=sched()))
         for i in range(chk.n(60, 1500)):
-            labels, rules, env = gen_dynamic(rng, nmax=7, disc_nonleaf=True)
-            fresh.append(dict(family="disc", rules=rules, env=env, root=labels[-1], sched=sched()))
+            c = gen_scan_cycle(rng)
+            c["sched"] = sched()
+            recorded.append(c)
         for i in range(chk.n(40, 1000)):
             c = gen_recorded(rng, disc_nonleaf=True)
             c["sched"] = sched()
